@@ -17,7 +17,7 @@ RULE = ('Properties: every scope kind x pattern kind x widths 1-3 in the non-act
         'topics of the property x payloads {0,1} x gaps {1,2} (L = 3 quick; L = 4 thorough, 5 for properties over '
         '<= 2 topics). evaluations = (property, trace, reading) triples; non-trivial = some width > 1 and the trace '
         'contains a split topic; distinct = (property shape, trace length, verdict). Exhaustive up to L.')
-RULE_ADDED = ' Since the seeding rounds: bounds 0 s and 1500 ms, properties derived with but() from a canonicalised one, binding-sensitive mode, alternatives sharing one alias.'
+RULE_ADDED = ' Since the seeding rounds: bounds 0 s and 1500 ms, properties derived with but() from a canonicalised one, binding-sensitive mode, alternatives sharing one alias, a grid with the literal predicates { False } / { True } on every event position in turn.'
 ASSUMPTIONS = ['trace semantics of DESIGN.md 4.2 (my reading of docs/lang.md): windows exclusive at both ends, bound '
                'measured from the window start (absence/existence) or from the trigger/behaviour (binary patterns); '
                'both readings R1 (first activation only) and R2 (re-activation) are run']
@@ -141,9 +141,36 @@ def run(ctx):
     controls_detected = set()
     max_traces = 0
     prev_hp = None
-    for n in range(n_props):
-        sk, pk, widths = cells[(n * ctx.nshards + ctx.shard) % len(cells)]
-        p = make_property(rng, sk, pk, widths, binding_sensitive=(n % 4 == 3 or (sk in ('after', 'after_until') and n % 4 != 0)))
+
+    def cases():
+        for n in range(n_props):
+            sk, pk, widths = cells[(n * ctx.nshards + ctx.shard) % len(cells)]
+            yield n, sk, pk, widths, make_property(rng, sk, pk, widths, binding_sensitive=(
+                n % 4 == 3 or (sk in ('after', 'after_until') and n % 4 != 0)))
+        # constant grid: every event position in turn (all of its alternatives) carries the literal predicate
+        # { False } or { True } - events that can never / always be observed
+        n = n_props
+        idx = 0
+        for sk in gen.SCOPES:
+            for pk in gen.PATTERNS:
+                names = [q for q, _ in gen.binding_order(sk, pk)]
+                for which in names:
+                    for const in (False, True):
+                        for w in (1, 2):
+                            idx += 1
+                            if not ctx.mine(idx):
+                                continue
+                            widths = {q: (w if q in (which, SPLIT[pk]) else 1) for q in names if q != 'activator'}
+                            p0 = make_property(rng, sk, pk, widths)
+                            pos = dict(A.prop_positions(p0))
+                            ev = pos[which]
+                            pos[which] = ('disj', tuple(('ev', se[1], se[2], A.boolean(const)) for se in ev[1])) \
+                                if ev[0] == 'disj' else ('ev', ev[1], ev[2], A.boolean(const))
+                            ctx.count('constant_grid_cases')
+                            yield n, sk, pk, widths, gen.assemble(sk, pk, pos, p0[3][4])
+                            n += 1
+
+    for n, sk, pk, widths, p in cases():
         text = A.render_prop(p)
         feats = {'api:canonical_form', 'shape:' + sk, 'shape:' + pk}
         ctx.begin_case(feats)
